@@ -494,6 +494,24 @@ func machineIDs(c IDCase, id channel.ID, o *h.Outcome) *h.Failure {
 	if s := m.State(); s == nil || s.ID != id {
 		return h.Failf("machine-state-id:current", "current state carries another ID than the parameters (%x)", id)
 	}
+	// a successor that carries ANOTHER channel's ID is refused, and afterwards the
+	// machine still holds nothing with a foreign ID and signs nothing
+	if m.SetFunded() == nil {
+		foreign := m.State().Clone()
+		foreign.Version++
+		foreign.ID[7] ^= 0x40
+		if err := m.Update(foreign, m.Idx()); err == nil {
+			return h.Failf("machine-state-id:foreign-accepted", "Update accepted a state that carries ID %x on a machine with ID %x", foreign.ID, id)
+		}
+		o.Class("machine:foreign-id-refused")
+		if st := m.StagingState(); st != nil && st.ID != id {
+			sig, serr := m.Sig()
+			return h.Failf("machine-state-id:foreign-staged", "after the refused Update the machine holds a staged state with the foreign ID %x (parameters' ID %x; Sig() then returns a signature: %v)", st.ID, id, serr == nil && sig != nil)
+		}
+		if s := m.State(); s == nil || s.ID != id {
+			return h.Failf("machine-state-id:current", "current state carries another ID than the parameters (%x)", id)
+		}
+	}
 	return nil
 }
 
